@@ -201,6 +201,16 @@ func verifPayload(big bool) []byte {
 	return verifrt.Bytes("d", n)
 }
 
+// verifPlainPayload: a concrete 3-byte payload, or the 15 MiB one.
+func verifPlainPayload(big bool) []byte {
+	if big {
+		b := make([]byte, verifBig)
+		b[0], b[1] = 7, 9
+		return b
+	}
+	return []byte{1, 2, 3}
+}
+
 func verifSameData(got, want []byte) bool {
 	if len(got) != len(want) {
 		return false
@@ -239,11 +249,16 @@ func verifLimit(ents []raftpb.Entry, maxSize uint64) []raftpb.Entry {
 type verifC17 struct {
 	dir   string
 	rds   *RaftDiskStorage
-	model []raftpb.Entry // model[i] has Index i+1 (no compaction in this harness)
+	model []raftpb.Entry // model[i] has Index i+1 (the model keeps compacted entries; the store may drop them)
 	hs    raftpb.HardState
 	nsave uint64
 	smallTerms bool
+	plain      bool
 	sizeQuery  bool
+	first      uint64 // smallest FirstIndex the store may report (entries below it were dropped with their file)
+	snapIndex  uint64
+	snapTerm   uint64
+	compacted  uint64 // largest index passed to DeleteBefore
 	hsSet bool
 }
 
@@ -256,7 +271,8 @@ func (v *verifC17) open() {
 // save appends a batch the way raft does: contiguous indexes, starting anywhere in [1, last+1].
 func (v *verifC17) save(maxBatch int, allowBig bool) {
 	last := len(v.model)
-	start := 1 + verifrt.Choose("at", last+1)
+	lo := int(v.snapIndex) // entries up to the snapshot index are committed: raft never overwrites them
+	start := lo + 1 + verifrt.Choose("at", last+1-lo)
 	k := 1 + verifrt.Choose("k", maxBatch)
 	v.saveAt(start, k, allowBig)
 }
@@ -267,10 +283,17 @@ func (v *verifC17) saveAt(start, k int, allowBig bool) {
 		typ := verifrt.Byte("type")
 		verifrt.Assume(typ < 3)
 		var term uint64
-		if v.smallTerms {
+		if v.plain && len(v.model) == 0 {
+			term = uint64(5 + 295*(j%2)) // opening batch: terms 5, 300, 5
+		} else if v.smallTerms {
 			term = []uint64{5, 300}[verifrt.Choose("term", 2)] // concrete sizes for the size-limit queries (1- and 2-byte varints)
 		} else {
 			term = verifrt.Uint64("term")
+		}
+		if v.plain { // compaction harnesses: only term and size vary; the opening batch is big, big, any
+			big := allowBig && (len(v.model) == 0 && j < 2 || verifrt.Bool("big"))
+			batch[j] = raftpb.Entry{Index: uint64(start + j), Term: term, Data: verifPlainPayload(big)}
+			continue
 		}
 		batch[j] = raftpb.Entry{Index: uint64(start + j), Term: term, Type: raftpb.EntryType(typ), Data: verifPayload(allowBig && verifrt.Bool("big"))}
 	}
@@ -284,13 +307,50 @@ func (v *verifC17) saveAt(start, k int, allowBig bool) {
 	v.model = append(v.model[:start-1:start-1], batch...)
 }
 
+// snapshot: what the raft node does when it compacts - CreateSnapshot(i) for an index inside the log, then
+// DeleteBefore(i), which drops whole entry files that lie completely below i.
+func (v *verifC17) snapshot() {
+	last := len(v.model)
+	lo := int(v.snapIndex)
+	if last == 0 || lo >= last {
+		return
+	}
+	i := uint64(lo + 1 + verifrt.Choose("snapAt", last-lo))
+	err := v.rds.CreateSnapshot(i, &raftpb.ConfState{Voters: []uint64{1}}, []byte("snapshot"))
+	verifrt.Assert(err == nil, "CreateSnapshot of a stored index failed")
+	v.snapIndex, v.snapTerm = i, v.model[i-1].Term
+	err = v.rds.DeleteBefore(i)
+	verifrt.Assert(err == nil, "DeleteBefore failed")
+	v.compacted = i
+	verifrt.Reach("snapshot")
+}
+
 func (v *verifC17) check() {
 	last := uint64(len(v.model))
 	fi, err := v.rds.FirstIndex()
-	verifrt.Assert(err == nil && fi == 1, "FirstIndex differs from the saved sequence")
+	verifrt.Assert(err == nil, "FirstIndex failed")
+	// nothing at or above the compaction index may be dropped; without compaction nothing at all
+	verifrt.Assert(fi >= 1 && (fi == 1 || fi <= v.compacted), "FirstIndex moved past entries that were never compacted")
+	if fi > 1 {
+		verifrt.Reach("dropped-prefix")
+	}
 	li, err := v.rds.LastIndex()
 	verifrt.Assert(err == nil && li == last, "LastIndex differs from the saved sequence")
-	for i := uint64(1); i <= last; i++ {
+	for i := uint64(1); i < fi; i++ {
+		t, err := v.rds.Term(i)
+		if i == v.snapIndex {
+			verifrt.Assert(err == nil && t == v.snapTerm, "Term of the snapshot index is not the snapshot term")
+		} else {
+			verifrt.Assert(errors.Is(err, raft.ErrCompacted), "Term of a compacted index is not ErrCompacted")
+		}
+		_, err = v.rds.Entries(i, i+1, math.MaxUint64)
+		verifrt.Assert(errors.Is(err, raft.ErrCompacted), "Entries of a compacted index is not ErrCompacted")
+	}
+	if v.snapIndex > 0 {
+		snap, err := v.rds.Snapshot()
+		verifrt.Assert(err == nil && snap.Metadata.Index == v.snapIndex && snap.Metadata.Term == v.snapTerm, "the saved snapshot is not returned unchanged")
+	}
+	for i := fi; i <= last; i++ {
 		t, err := v.rds.Term(i)
 		verifrt.Assert(err == nil, "Term of a stored index failed")
 		verifrt.Assert(t == v.model[i-1].Term, "Term differs from the saved sequence")
@@ -302,10 +362,10 @@ func (v *verifC17) check() {
 	if last > 0 {
 		_, err = v.rds.Term(last + 1)
 		verifrt.Assert(errors.Is(err, raft.ErrUnavailable), "Term beyond the end is not ErrUnavailable")
-		_, err = v.rds.Entries(1, last+2, math.MaxUint64)
+		_, err = v.rds.Entries(fi, last+2, math.MaxUint64)
 		verifrt.Assert(errors.Is(err, raft.ErrUnavailable), "Entries beyond the end is not ErrUnavailable")
 		// range queries from every lower bound; with sizeQuery the size limit is arbitrary
-		for lo := uint64(1); lo <= last; lo++ {
+		for lo := fi; lo <= last; lo++ {
 			maxSize := uint64(math.MaxUint64)
 			if v.sizeQuery {
 				maxSize = uint64(verifrt.Uint16("maxSize"))
@@ -327,10 +387,18 @@ func (v *verifC17) check() {
 }
 
 // verifC17Run: nops operations chosen from {save, close+reopen, crash+reopen}, then every query.
-func verifC17Run(nops, maxBatch int, allowBig, sizeQuery bool) {
+func verifC17Run(nops, maxBatch int, allowBig, sizeQuery bool) { verifC17RunOps(nops, maxBatch, allowBig, sizeQuery, false) }
+
+// withSnapshot adds the compaction step to the operations; terms are then concrete (5 or 300) because the
+// snapshot record is marshalled by generated protobuf code whose buffer size depends on the term.
+func verifC17RunOps(nops, maxBatch int, allowBig, sizeQuery, withSnapshot bool) {
 	defer verifCleanup()
 	config.EntryFileRWType = config.DefaultEntryFileRWType // the production file wrapper (FileWrapV2)
-	v := &verifC17{dir: verifDir(), smallTerms: sizeQuery, sizeQuery: sizeQuery}
+	v := &verifC17{dir: verifDir(), smallTerms: sizeQuery || withSnapshot, sizeQuery: sizeQuery, plain: withSnapshot}
+	nkinds := 3
+	if withSnapshot {
+		nkinds = 4
+	}
 	v.open()
 	if allowBig {
 		v.saveAt(1, 3, true) // three entries, each short or 15 MiB: the third rolls the file when the first two are big
@@ -339,7 +407,9 @@ func verifC17Run(nops, maxBatch int, allowBig, sizeQuery bool) {
 		}
 	}
 	for op := 0; op < nops; op++ {
-		switch verifrt.Choose("op", 3) {
+		switch verifrt.Choose("op", nkinds) {
+		case 3:
+			v.snapshot()
 		case 0:
 			v.save(maxBatch, allowBig)
 		case 1:
@@ -364,3 +434,11 @@ func VerifC17SizeLimit() { verifC17Run(2, 2, false, true) }
 // VerifC17Rotate: payloads large enough to roll the entry file by size, then conflicting appends into
 // the current or an earlier file, close/crash and reopen anywhere.
 func VerifC17Rotate() { verifC17Run(2+verifrt.Tier(), 1, true, false) }
+
+// VerifC17Snapshot: snapshots and prefix deletion among saves and reopens (one entry file: nothing may be dropped).
+func VerifC17Snapshot() { verifC17RunOps(3+verifrt.Tier(), 1, false, false, true) }
+
+// VerifC17RotateCompact: after the entry file has rolled, a snapshot plus prefix deletion drops the old file:
+// compacted indexes answer ErrCompacted, the snapshot index answers the snapshot term, everything from the
+// new first index on is still what was saved - also after reopen.
+func VerifC17RotateCompact() { verifC17RunOps(2+verifrt.Tier(), 1, true, false, true) }
